@@ -213,3 +213,172 @@ Definition ex_node1_result : option (list Z * bool) :=
 
 Example C11_nonvacuous_run : ex_node1_result = Some ([0; 1; 2], true).
 Proof. vm_compute. reflexivity. Qed.
+
+
+(* ======================================================================
+   Cross-phase agreement (DKG/Agreement*.v): system semantics with a broadcast
+   board per phase, honest nodes running the model functions, arbitrary bundles
+   from the other parties. Fresh DKG, regular and fast-sync mode. Resharing and
+   the Rabin DKG remain _partial (correspondence and oracles carry them).
+   ====================================================================== *)
+From Coq Require Import ZArith Znumtheory List Bool Permutation.
+From Kyber Require Import Algebra.Zq Algebra.Grp DKG.PacketSet DKG.PedersenDKG DKG.PedersenProofs.
+From Kyber Require Import DKG.Agreement DKG.AgreementDeal DKG.AgreementResp DKG.AgreementJust
+  DKG.AgreementProofs DKG.AgreementResult DKG.AgreementQual DKG.AgreementShamir DKG.AgreementCex DKG.AgreementExample.
+From Kyber Require Share.ShamirSM.
+Import ListNotations.
+Local Open Scope Z_scope.
+
+(* (4) the system: boards, honest parties (DKG/Agreement.v).  [fast] is
+   Config.FastSync; every theorem below holds for both modes of the fresh DKG. *)
+
+(* the configuration NewDistKeyHandler builds is a [fresh_cfg] *)
+Theorem C11_fresh_cfg_new_handler :
+  forall q nodes thr fast i key priv,
+    NoDup (map fst nodes) -> NoDup (map snd nodes) -> In (i, key) nodes -> Z.of_nat (length priv) = thr ->
+    fresh_cfg q nodes thr fast i (new_handler q [] nodes key thr 0 fast false false priv []).
+Proof. exact fresh_cfg_new_handler. Qed.
+Print Assumptions C11_fresh_cfg_new_handler.
+
+(* cross-phase induction, step 1: after the response board two honest nodes hold,
+   for every dealer, the same eviction verdict, the same public polynomial and
+   - unless the dealer is evicted - the same row of the status matrix *)
+Theorem C11_views_agree_after_responses :
+  forall q nodes thr fast B i ci j cj d,
+    boards_ok q B -> honest q nodes thr fast B i ci -> honest q nodes thr fast B j cj -> i <> j -> In d (map fst nodes) ->
+    agree q (rrec q nodes fast ci B d) (rrec q nodes fast cj B d).
+Proof. exact views_agree_after_responses. Qed.
+Print Assumptions C11_views_agree_after_responses.
+
+Theorem C11_holder_evictions_agree :
+  forall q nodes thr fast B i ci j cj h,
+    boards_ok q B -> honest q nodes thr fast B i ci -> honest q nodes thr fast B j cj ->
+    hevR nodes fast i (bR B) h = hevR nodes fast j (bR B) h.
+Proof. exact holder_evictions_agree. Qed.
+Print Assumptions C11_holder_evictions_agree.
+
+(* step 2: whether the protocol ends in the response phase is common knowledge *)
+Theorem C11_finish_agree :
+  forall q nodes thr fast B i ci j cj,
+    boards_ok q B -> honest q nodes thr fast B i ci -> honest q nodes thr fast B j cj -> i <> j ->
+    fin q (rs3 q ci B) = true -> fin q (rs3 q cj B) = true.
+Proof. exact finish_agree. Qed.
+Print Assumptions C11_finish_agree.
+
+(* step 3: ... and still agree after the justification board *)
+Theorem C11_views_agree_after_justifications :
+  forall q nodes thr fast B i ci j cj d,
+    boards_ok q B -> honest q nodes thr fast B i ci -> honest q nodes thr fast B j cj -> i <> j -> In d (map fst nodes) ->
+    ro_err (rout q ci B) = ENone -> ro_res (rout q ci B) = None ->
+    ro_err (rout q cj B) = ENone -> ro_res (rout q cj B) = None ->
+    agree q (x6 q nodes thr fast ci B d) (x6 q nodes thr fast cj B d).
+Proof. exact views_agree_after_justifications. Qed.
+Print Assumptions C11_views_agree_after_justifications.
+
+(* AGREEMENT: any two honest nodes that complete output the same QUAL and the
+   same commitment polynomial, whatever the other parties broadcast *)
+Theorem C11_pedersen_agreement :
+  forall q nodes thr fast B i ci j cj ri rj,
+    boards_ok q B -> honest q nodes thr fast B i ci -> honest q nodes thr fast B j cj -> i <> j ->
+    output q ci B ri -> output q cj B rj ->
+    res_qual ri = res_qual rj /\ res_commits ri = res_commits rj.
+Proof. exact pedersen_agreement. Qed.
+Print Assumptions C11_pedersen_agreement.
+
+(* ... also when every honest node reads its own permutation of the boards *)
+Theorem C11_pedersen_agreement_any_order :
+  forall q nodes thr fast (B Bi Bj : boards q) i ci j cj ri rj,
+    boards_ok q B -> boards_perm q B Bi -> boards_perm q B Bj ->
+    honest q nodes thr fast B i ci -> honest q nodes thr fast B j cj -> i <> j ->
+    output q ci Bi ri -> output q cj Bj rj ->
+    res_qual ri = res_qual rj /\ res_commits ri = res_commits rj.
+Proof. exact pedersen_agreement_any_order. Qed.
+Print Assumptions C11_pedersen_agreement_any_order.
+
+(* share on the polynomial; key = sum of the qualified dealers' contributions;
+   Threshold coefficients; QUAL consists of participants *)
+Theorem C11_output_share_and_key :
+  forall q nodes thr fast B i c r,
+    boards_ok q B -> honest q nodes thr fast B i c -> output q c B r ->
+    res_idx r = i /\
+    commit q (res_share r) = peval q (res_commits r) (xof q i) /\
+    hd zzero (res_commits r) = psum (map (contribution q thr (bD B)) (res_qual r)) /\
+    Z.of_nat (length (res_commits r)) = thr /\
+    (forall d, In d (res_qual r) -> In d (map fst nodes)).
+Proof. exact output_share_and_key. Qed.
+Print Assumptions C11_output_share_and_key.
+
+(* any Threshold honest output shares reconstruct (share.RecoverSecret, C07) a
+   secret whose commitment is the public key *)
+Theorem C11_any_t_shares_reconstruct :
+  forall q, prime q -> forall nodes thr fast (B : boards q) (outs : list (Z * cfg q * result q)),
+    boards_ok q B -> 1 <= thr ->
+    (forall o, In o outs -> honest q nodes thr fast B (out_idx q o) (snd (fst o)) /\ output q (snd (fst o)) B (snd o) /\
+                            0 <= out_idx q o < q - 1 /\ out_idx q o < 4294967295) ->
+    NoDup (map (out_idx q) outs) -> (Z.to_nat thr <= length outs)%nat ->
+    exists s, ShamirSM.recover_secret (Z.to_nat thr) (map (out_entry q) outs) = Some s /\
+              forall o, In o outs -> commit q s = hd zzero (res_commits (snd o)).
+Proof. exact any_t_shares_reconstruct. Qed.
+Print Assumptions C11_any_t_shares_reconstruct.
+
+(* an honest dealer with fewer than Threshold complaints is in QUAL *)
+Theorem C11_honest_dealer_stays :
+  forall q nodes thr fast B i ci d cd r,
+    boards_ok q B -> honest q nodes thr fast B i ci -> honest q nodes thr fast B d cd -> output q ci B r ->
+    complaints (d_row (rrec q nodes fast ci B d)) < thr ->
+    In d (res_qual r).
+Proof. exact honest_dealer_stays. Qed.
+Print Assumptions C11_honest_dealer_stays.
+
+(* a dealer whose invalid deal to an honest node stays unjustified is not in QUAL *)
+Theorem C11_unjustified_dealer_disqualified :
+  forall q nodes thr fast B i c r d b,
+    boards_ok q B -> honest q nodes thr fast B i c -> output q c B r -> d <> i -> In d (map fst nodes) ->
+    bundle_of q (bD B) d = Some b ->
+    (forall dl sh, In dl (db_deals b) -> dl_idx dl = i -> dl_share dl = Some sh ->
+                   commit q sh <> peval q (db_pub b) (xof q i)) ->
+    (forall jb j, In jb (bJ B) -> jb_dealer jb = d -> In j (jb_justifs jb) -> j_idx j = i ->
+                  commit q (j_share j) <> peval q (db_pub b) (xof q i)) ->
+    ~ In d (res_qual r).
+Proof. exact unjustified_dealer_disqualified. Qed.
+Print Assumptions C11_unjustified_dealer_disqualified.
+
+(* when everybody is honest, everybody completes with QUAL = everybody *)
+Theorem C11_all_honest_complete :
+  forall q nodes thr fast B (cf : Z -> cfg q),
+    boards_ok q B -> (forall d, In d (map fst nodes) -> honest q nodes thr fast B d (cf d)) ->
+    forall i, In i (map fst nodes) -> exists r, out_resp q (cf i) B r /\ res_qual r = map fst nodes.
+Proof. exact all_honest_complete. Qed.
+Print Assumptions C11_all_honest_complete.
+
+(* the defect found by the induction (kyber's original CompleteSuccess read the
+   rows of evicted dealers): two honest nodes complete with different QUAL and
+   keys under the original test, agree under the repaired one *)
+Theorem C11_disagreement_before_repair :
+  cex_run (process_responses_unrepaired cex_q) 0 = Some (2, None, [0; 1; 2; 4], 27) /\
+  cex_run (process_responses_unrepaired cex_q) 1 = Some (3, None, [0; 1; 2], 18) /\
+  cex_run (process_responses_unrepaired cex_q) 2 = Some (2, None, [0; 1; 2; 4], 27).
+Proof. exact disagreement_before_repair. Qed.
+Print Assumptions C11_disagreement_before_repair.
+
+(* non-vacuity of [honest]/[boards_ok]/[output]: a run with an invalid deal, a
+   false complaint and justifications (regular mode), and a fast-sync run with
+   a silent holder *)
+Example C11_nonvacuous_system :
+  boards_ok eq_ eB /\ honest eq_ enodes ethr false eB 0 (ecfg 0) /\ honest eq_ enodes ethr false eB 1 (ecfg 1) /\
+  out_just eq_ (ecfg 0) eB (eres 0) /\ out_just eq_ (ecfg 1) eB (eres 1) /\
+  res_qual (eres 0) = [0; 1; 2; 3] /\
+  boards_ok eq_ fB /\ honest eq_ enodes ethr true fB 0 (fcfg 0) /\ out_just eq_ (fcfg 0) fB (fres 0) /\
+  res_qual (fres 0) = [0; 1; 2].
+Proof.
+  split; [exact example_boards_ok|].
+  split; [apply example_honest; cbn; tauto|].
+  split; [apply example_honest; cbn; tauto|].
+  split; [apply (example_output 0); cbn; tauto|].
+  split; [apply (example_output 1); cbn; tauto|].
+  split; [apply example_qual|].
+  split; [exact fast_boards_ok|].
+  split; [apply fast_honest; cbn; tauto|].
+  split; [apply (fast_output 0); cbn; tauto|].
+  apply fast_qual.
+Qed.
